@@ -49,6 +49,10 @@ def canon(t):
             return r if isinstance(r, tuple) else ("var", r)
         if t[1] in NAME_MAP:
             return NAME_MAP[t[1]]
+        if len(t) > 2 and "#" in str(t[2]) and t[1] in ("v", "snap"):
+            # the value of a local after a join / a loop (a version of it): one name for all such unknowns, whether the
+            # walker snapshotted it or merged branch assignments
+            return ("var", "snap")
         return ("var", _CTX["ren"].get(t[1], t[1]))
     def is_bits(x):
         # the bit vector handed to a constructor: its first parameter (whatever it is called)
@@ -64,11 +68,15 @@ def canon(t):
             return ("call", "log2_ones_per_sub32", args[:1])
         nm = re.sub(r"^Select(Zero)?Adapt(Const)?::", "SelectAdapt::", nm)
         nm = re.sub(r"^SelectZeroSmall::", "SelectSmall::", nm)
+        if nm.split("::")[-1] == "linear_partition_point":
+            nm = "linear_partition_point"     # a private extension trait's method or a free function of that name
         return ("call", nm, args)
     if h == "un" and t[1] == "!" and t[2][0] == "index":
         return canon(t[2])
     if h == "unk":
-        return ("unk", str(t[1]).split("@")[0])
+        # a value the term language does not express (a match on an enum ..) is the same unknown as a local that
+        # was assigned in the arms of that match
+        return ("var", "snap")
     return tuple(canon(x) if isinstance(x, tuple) else x for x in t)
 
 
@@ -87,6 +95,19 @@ def field_roles(F, b):
 
 
 _CTX = {"roles": {}, "ren": {}}
+_PARENTS = {}
+
+
+def clear_low(t):
+    """`x & (MAX << b)` written as `(x >> b) << b` (clearing the low b bits), bottom-up"""
+    if not isinstance(t, tuple) or not t:
+        return t
+    t = tuple(clear_low(x) if isinstance(x, tuple) else x for x in t)
+    if t[0] == "op" and len(t) == 4 and t[1] == "&":
+        for a_, b_ in ((t[2], t[3]), (t[3], t[2])):
+            if b_[0] == "op" and len(b_) == 4 and b_[1] == "<<" and b_[2][0] == "def" and b_[2][1].endswith("MAX"):
+                return ("op", "<<", ("op", ">>", a_, b_[3]), b_[3])
+    return t
 class _Bag(dict):
     def add(self, it):
         self[it] = self.get(it, 0) + 1
@@ -103,6 +124,18 @@ def sk_items(F, b, opaque, ren=None, param_terms=None):
         pid = [str(p_["id"]) for p_ in b.params if p_.get("k") == "PBind" and p_["name"] != "self"][pos - 1]
         _CTX["roles"][pid] = term
     _CTX["ren"] = dict(ren or {})
+    # the variables of `for` loops are positional: `for (i, word) in ..` binds lv0, lv1 whatever they are called (several
+    # loops of one function may well reuse a name, and renaming one of them is not a change)
+    for x in walk(b.body):
+        if x.get("k") == "Match" and x.get("src") == "ForLoopDesugar":
+            for a_ in x.get("arms", []):
+                for y in walk(a_.get("body", {})):
+                    if y.get("k") == "Match" and y.get("arms"):
+                        for arm in y["arms"]:
+                            if arm["pat"].get("name") == "Some":
+                                for k_, (_nm, pid) in enumerate(pat_bindings(arm["pat"])):
+                                    _CTX["roles"].setdefault(str(pid), "lv%d" % k_)
+                        break
 
     def tagname(nm):
         return _CTX["ren"].get(nm, nm)
@@ -115,16 +148,26 @@ def sk_items(F, b, opaque, ren=None, param_terms=None):
             return
         k = n.get("k")
         if k == "Binary" and n["op"] in ("<", "<=", ">", ">=", "==", "!="):
-            for a in cond_atoms(W.T, n, True):
+            atoms_ = cond_atoms(W.T, n, True)
+            if len(atoms_) == 1 and atoms_[0][0] == "le":
+                # one representative for a test and its negation (`if a < b {X} else {Y}` / `if a >= b {Y} else {X}`)
+                a_ = atoms_[0]
+                neg_ = ("le", a_[2], a_[1], -a_[3] - 1)
+                ra = repr(normalize(canon(W.expand(a_[1])))), repr(normalize(canon(W.expand(a_[2]))))
+                atoms_ = [a_ if ra[0] <= ra[1] else neg_]
+            for a in atoms_:
                 if a[0] in ("le", "ne"):
                     items.add(("cmp", a[0], repr(normalize(canon(W.expand(a[1])))), repr(normalize(canon(W.expand(a[2])))), a[3]))
                 else:
                     items.add(("cmp", repr(normalize(canon(W.expand(a[1])))), a[2]))
         elif k == "Binary" and n["op"] in ("<<", ">>", "&"):
             bt_ = W.T.term(n)
-            # only what still is a bit operation after canonicalisation (`x >> lg(BITS)` is the division `x / BITS`)
-            if bt_[0] == "op" and bt_[1] in ("<<", ">>", "&"):
-                add("bit", bt_, W)
+            # only what still is a bit operation after canonicalisation (`x >> lg(BITS)` is the division `x / BITS`),
+            # and only the outermost node of a bit expression (`(x >> b) << b` and `x & (MAX << b)` are one item each)
+            par = _PARENTS.get(id(n))
+            nested = par is not None and par.get("k") == "Binary" and par.get("op") in ("<<", ">>", "&")
+            if bt_[0] == "op" and bt_[1] in ("<<", ">>", "&") and not nested:
+                add("bit", clear_low(bt_), W)
         elif k == "Index":
             add("idx", W.T.term(n["i"]), W)
         elif k == "MethodCall" and n["name"] in ("get_unchecked", "get_unchecked_mut"):
@@ -137,6 +180,16 @@ def sk_items(F, b, opaque, ren=None, param_terms=None):
             add("set:%s" % tagname(n["l"]["name"]), W.T.term(n["r"]), W)
         elif k == "MethodCall" and n["name"] in ("push", "resize", "saturating_sub", "div_ceil"):
             items.add(("call:" + n["name"], tuple(repr(normalize(canon(W.expand(W.T.term(a))))) for a in n["args"])))
+    import astnorm
+    saved_body = b.body
+    try:
+        b.body = astnorm.defer_let_branches(b.body)
+    except RecursionError:
+        b.body = saved_body
+    _PARENTS.clear()
+    for x_, ps_ in walk_with_parents(b.body):
+        if ps_:
+            _PARENTS[id(x_)] = ps_[-1]
     W = Walker(F, b, on_node=on_node)
     if opaque == "all-lets":
         # every immutable local is kept as a named quantity and contributes one item (its definition)
@@ -145,7 +198,10 @@ def sk_items(F, b, opaque, ren=None, param_terms=None):
     else:
         W.opaque_names = dict(opaque)
     W.opaque_ids = field_roles(F, b)
-    W.run()
+    try:
+        W.run()
+    finally:
+        b.body = saved_body
     return set((it, n) if n > 1 and it[0].startswith(("store", "upd", "call:push")) else (it, 1) for it, n in bag.items())
 
 
